@@ -103,7 +103,7 @@ def gen_spec(rng, max_events=40, max_par=5, datatype=None, allow_malformed=False
         'order': 'TDA',
     }
     if allow_malformed:
-        kind = rng.choice(['mode', 'ascii', 'unaligned', 'byteord', 'datatype', 'wide'])
+        kind = rng.choice(['mode', 'ascii', 'unaligned', 'unaligned_sum8', 'byteord', 'datatype', 'wide'])
         spec['malformed'] = kind
         if kind == 'mode':
             spec['mode'] = rng.choice(['H', 'C', 'U'])
@@ -116,6 +116,18 @@ def gen_spec(rng, max_events=40, max_par=5, datatype=None, allow_malformed=False
             spec['overrides'] = {'$P%dB' % (i + 1): str(rng.choice([12, 10, 4, 20, 63]))}
             spec['datatype'] = 'I'
             spec['overrides']['$DATATYPE'] = 'I'
+        elif kind == 'unaligned_sum8':
+            # widths that are not multiples of 8 but add up to whole bytes per event (12+12, 4+12, 20+20+24, ...)
+            ws = rng.choice([[12, 12], [4, 12], [10, 6, 16], [20, 20, 24], [12, 20]])
+            N = rng.randrange(1, 5)
+            spec.update({'datatype': 'I', 'widths': [8 * ((w + 7) // 8) for w in ws], 'ranges': [1 << w for w in ws], 'names': ['P%d' % (i + 1) for i in range(len(ws))],
+                         'events': [[rng.randrange(0, 1 << w) for w in ws] for _ in range(N)]})
+            spec['overrides'] = {'$P%dB' % (i + 1): str(w) for i, w in enumerate(ws)}
+            spec['overrides']['$DATATYPE'] = 'I'
+            # the DATA segment holds sum(ws)/8 bytes per event
+            import fcswriter as _fw
+            nb = sum(ws) // 8
+            spec['raw_data'] = ''.join(chr(rng.randrange(256)) for _ in range(nb * N))
         elif kind == 'byteord':
             spec['byteord'] = rng.choice(['3,4,1,2', '2,1,4,3', '1,2,3', '4,3,2,1 ', '1,2,4,3'])
         elif kind == 'wide':
